@@ -4,6 +4,7 @@ import atexit
 import csv
 import io
 import os
+import re
 import shutil
 import tempfile
 
@@ -199,7 +200,8 @@ def compare_yield(prediction, observation, basename, part, tag, case, names):
             problems.append("field-name-missing")
         if basename not in error["text"]:
             problems.append("input-name-missing")
-        if "R%d" % info["row"] not in error["text"]:
+        # the location part of the text names the 1-based row (any rendering: "R3C1", "row 3", ...)
+        if not re.search(r"(?<!\d)%d(?!\d)" % info["row"], error["text"].split(": ")[0]):
             problems.append("row-not-in-text")
         if info.get("see_row") is not None and error.get("see_line") != info["see_row"] - 1:
             problems.append("first-occurrence-row")
